@@ -105,12 +105,14 @@ Must(M, i, v, g) ==
              /\ StrictName(o.nc, v)
 
 (* Members that may be under test without contradicting the statement: written in the SUT,  *)
-(* in the body of the very class they are listed for, not ignored, name not certainly       *)
-(* ineligible.  A member is "defined in" the class whose body contains it: an inherited,    *)
-(* not overridden member (view) is not a callable of the inheriting class -- if its base    *)
-(* class belongs to another module it is defined in another module (def = "other"), if the  *)
-(* base class belongs to the SUT it is under test once, via the base class, and not a       *)
-(* second time via the subclass ("exactly the ... methods defined in that module").  Class  *)
+(* not ignored, name not certainly ineligible.  A member is "defined in" the module whose   *)
+(* source contains it: an inherited, not overridden member (view) whose base class belongs  *)
+(* to another module is defined in another module (def = "other", inh = "other") and may    *)
+(* never be under test via the inheriting class.  A view of a member of a base class of the *)
+(* SUT (inh = "sut") is written in the module under test; the code lists it once, via the   *)
+(* base class (design model: ViewsNeverUnderTest), but the statement does not say via which *)
+(* class a callable of the module is reached: listing it again under the subclass is        *)
+(* accepted, never demanded.  Class                                                         *)
 (* names are not filtered (the pinned tree's own tests expect `_ProtectedClass.__init__`    *)
 (* under PUBLIC; the statement read strictly says otherwise: both are accepted).  Kinds on  *)
 (* which the statement is silent (lambdas, coroutines, closures, enum / abstract / nested   *)
@@ -118,7 +120,7 @@ Must(M, i, v, g) ==
 May(M, i, v, g) ==
   LET r == M[i] IN
   /\ r.kind # "unexpected"
-  /\ r.def = "sut" /\ r.inh = "own" /\ ~Ignored(M, i, g)
+  /\ r.def = "sut" /\ r.inh \in {"own", "sut"} /\ ~Ignored(M, i, g)
   /\ (r.kind \in ClassLike \/ LaxName(r.nc, v))
 
 (* the view of an inherited, not overridden base-class member *)
